@@ -290,13 +290,13 @@ public:
             m_beta = m_op.norm(m_fac_f);
 
             // ||w||^2 = ||h||^2 + ||f||^2
-            const RealScalar hnorm = m_op.norm(h);
-            anorm = (std::max)(anorm, (std::max)(hnorm, m_beta));
-            if (m_beta > RealScalar(0.717) * hnorm)
-                continue;
+            anorm = (std::max)(anorm, (std::max)(RealScalar(m_op.norm(h)), m_beta));
 
             // f/||f|| is going to be the next column of V, so we need to test
             // whether (V^H)B(f/||f||) ~= 0
+            // This test is always done: skipping it when ||f|| is large compared with ||h||
+            // is only safe if V is exactly orthonormal. Otherwise the new vector inherits the
+            // deviation of (V^H)V from identity, which then grows geometrically over restarts
             m_op.adjoint_product(Vs, m_fac_f, Vf.head(i1));
             RealScalar ortho_err = Vf.head(i1).cwiseAbs().maxCoeff();
             // If not, iteratively correct the residual
